@@ -35,6 +35,8 @@ class VersionConversion:
     str
       A string representation of self.
     """
+    if version not in gfapy.VERSIONS:
+      raise gfapy.VersionError("Version unknown ({})".format(repr(version)))
     return gfapy.Line.SEPARATOR.join(getattr(self, "_to_"+version+"_a")())
 
   def _to_version_a(self, version):
